@@ -156,9 +156,12 @@ class SpecGeom:
         """end point of the half segment of pulse p in direction s = -1 / +1"""
         return p['pt'] + 0.5 * (p['ends'][0 if s < 0 else 1] - p['pt'])
 
-    def surrogate_matrix(self, k):
+    def surrogate_matrix(self, k, with_scale=False):
+        """with_scale: also the largest magnitude of a potential term an entry is composed of (the scale the
+           deviation of an entry is measured against: entries can cancel to nothing, e.g. coincident wires)"""
         n = len(self.pulses)
         Z = np.zeros((n, n), dtype=complex)
+        S = 0.0
         w2 = k * k / 2
         ks = (1, -1) if self.ground else (1,)
         psi = self.psi
@@ -184,7 +187,11 @@ class SpecGeom:
                     u12 = ((psi(hm_m, xn, e_p) - psi(hm_p, xn, e_p)) / pn['lens'][1] * f1 +
                            (psi(hm_p, e_m, xn) - psi(hm_m, e_m, xn)) / pn['lens'][0] * f0)
                     Z[mi, ni] += kk * (dterm + u12)
-        return Z
+                    if with_scale:
+                        S = max(S, abs(w2) * (abs(u) + abs(v)) * float(np.abs(zzz).max() or 0),
+                                max(abs(psi(hm_m, xn, e_p)), abs(psi(hm_p, xn, e_p))) / pn['lens'][1] * f1,
+                                max(abs(psi(hm_p, e_m, xn)), abs(psi(hm_m, e_m, xn))) / pn['lens'][0] * f0)
+        return (Z, S) if with_scale else Z
 
     def surrogate_fields(self, I, k, mfac, r):
         """E and H at r (power scaling 1) under the surrogate kernel"""
